@@ -1,7 +1,7 @@
 (* C05 — Which effects run is a fixed function of state, run mode and effect
    category. Statements only; proofs in proofs/Status_p.v. *)
 From Coq Require Import ZArith QArith List Bool.
-From EosV Require Import lib.AList gen.T_eos model.World model.Status model.Engine model.Ops proofs.Status_p.
+From EosV Require Import lib.AList gen.T_eos model.World model.Status model.Engine model.Ops model.Switches proofs.Status_p.
 Import ListNotations.
 Open Scope Z_scope.
 
